@@ -160,6 +160,17 @@ def main():
             o["group"] = gname
             table.append(o)
         obligations.extend(obs)
+        # spec-level theorems (proof fns in the contract preamble that carry part of the property statement)
+        for th in spec.get("theorems", {}).get(gname, []):
+            fr = am["fns"].get(th["name"])
+            o = {"unit": "theorem", "label": th["name"], "kind": "theorem", "obligation": "%s/theorem %s" % (gname, th["name"]), "text": th["text"],
+                 "discharged": bool(fr and fr["success"]), "ms": fr["ms"] if fr else None, "rlimit": fr["rlimit"] if fr else None, "backend": "verus/z3", "group": gname}
+            if fr is None:
+                undecided.append("%s: theorem %s not found in the verifier output" % (gname, th["name"]))
+            elif not fr["success"]:
+                undecided.append("%s: theorem %s is not proved on this run" % (gname, th["name"]))
+            obligations.append(o)
+            table.append(o)
         for it in built["items"]:
             if it["id"] in units_of_p or (it["id"].startswith(("struct ", "enum ")) ):
                 functions.append({"id": it["id"], "file": it["file"], "lines": [it["line_start"], it["line_end"]], "sha256": it.get("sha256"), "rules": it["rules"], "under_contract": it["id"] in units_of_p})
